@@ -23,6 +23,8 @@ def bounds(tier):
     q = tier == "quick"
     return {"partition": f"values 0..5, 1..{5 if q else 6} items, 1..4 bins; all partitioners, cg with 4 configs x 3 objectives, dp/ilp with 3 objectives (ilp: 1..4 items, values 0..3)",
             "packing": f"all sequences of 1..{4 if q else 5} items over 0..6 (B=6) for ff/bf/ffd/bfd/bc; multisets of 1..{6 if q else 7} items over 1..10 (B=20) for bc/ffd/bfd",
+            "big": "partition values {0,1,2**24+1,2**31+1,2**32+3,2**40+5} 1..4(5) items k=2..3; packing B=2**32 sequences of 1..3(4) over {1,2**31-1,2**31,2**31+1,2**32-1,2**32}; covering B=2**32 with letters next to B/3, B/2",
+            "long": "9..15(24) items over {1,2}, 9..12(16) over {1,2,3}, 9..11(13) over {0,1,5},{2,3,7}, non-sorted: simple partitioners + cg (k=2,3,n+1), 5 packers and 3 covers with B=2*max+1",
             "covering": f"multisets of 1..{5 if q else 6} items over 1..13 (B=10) and 1..9 (B=6)"}
 
 
@@ -40,6 +42,16 @@ def tasks(tier):
     for B, N in ((10, 5 if q else 6), (6, 5 if q else 6)):
         for ch in scopes.chunk_multisets(range(1, B + 4), 1, N, 400):
             ts.append(("covering", ch, B))
+    # large magnitudes (a format-dependent number type - int32 array, float32 sums - would show here) and many items
+    for ch in scopes.chunk_multisets(scopes.BIG_VALUES, 1, 4 if q else 5, 25):
+        ts.append(("partition", ch, (2, 3)))
+    BL = (1, 2 ** 31 - 1, 2 ** 31, 2 ** 31 + 1, 2 ** 32 - 1, 2 ** 32)
+    for ch in spaces.chunked(spaces.sequences(BL, 1, 3 if q else 4), 200):
+        ts.append(("packing-seq", ch, 2 ** 32))
+    for ch in scopes.chunk_multisets((1, 2, 2 ** 32 // 3, 2 ** 32 // 3 + 1, 2 ** 31 - 1, 2 ** 31, 2 ** 31 + 1, 2 ** 32), 1, 4 if q else 5, 200):
+        ts.append(("covering", ch, 2 ** 32))
+    for ch in spaces.chunked(scopes.long_thin_multisets(tier), 40):
+        ts.append(("long", ch, None))
     return ts
 
 
@@ -92,6 +104,21 @@ def run_task(task):
                     if algo == "rnp" and k >= 6: continue
                     acc.point(nontrivial=nt)
                     _five(acc, {"algo": algo, "items": items, "k": k, "kw": kw}, judge_partition, allow_fewer=(algo == "multifit"))
+        elif scope == "long":
+            sc = list(scopes.scramble(it))
+            n = len(sc)
+            for k in (2, 3, n + 1):
+                for algo, kw in [(a, {}) for a in scopes.SIMPLE_PARTITIONERS] + [("cg", {"objective": "MinimizeDifference"})]:
+                    acc.point(nontrivial=nt)
+                    _five(acc, {"algo": algo, "items": sc, "k": k, "kw": kw}, judge_partition, allow_fewer=(algo == "multifit"))
+            B = 2 * max(it) + 1
+            for a in scopes.PACK_ALGOS:
+                acc.point(nontrivial=nt)
+                _five(acc, {"algo": a, "items": sc, "B": B}, judge_packing, zeros_optional=(a == "bc"))
+            if min(it) > 0:
+                for a in scopes.COVER_ALGOS:
+                    acc.point(nontrivial=nt)
+                    _five(acc, {"algo": a, "items": sc, "B": B}, judge_cover)
         elif scope == "packing-seq":
             for a in scopes.PACK_ALGOS:
                 acc.point(nontrivial=nt)
